@@ -296,6 +296,38 @@ class Gen:
         body = "%s #[derive(::darling::%s)] %spub struct R__%s { %s }" % (" ".join(fns + cfns), kind, attr(cit + c2), gp, ", ".join(magic + fields))
         self.add(kind, body, shadow_k, feats | cf | {"element"}, generics)
 
+    def gen_macro_rules(self):
+        """receivers declared THROUGH macro_rules!: field types, callables, names and whole field lists arrive as macro fragments, whose tokens carry
+        the hygiene of the macro; the emitted impl must still find its own locals"""
+        ATTRS = VEC % "::darling::export::syn::Attribute"
+        decls = [
+            ("mr-type-ident", "FromMeta",
+             "macro_rules! mk { ($n:ident, $t:ident) => { #[derive(::darling::FromMeta)] pub struct $n { pub a: $t, #[darling(multiple)] pub b: crate::ustd::vec::Vec<$t> } } } mk!(R__, u8);"),
+            ("mr-type-ty", "FromMeta",
+             "macro_rules! mk { ($n:ident, $t:ty) => { #[derive(::darling::FromMeta)] pub struct $n { pub a: $t, #[darling(default)] pub b: $t } } } mk!(R__, u8);"),
+            ("mr-with-path", "FromMeta",
+             "fn conv(m: %s) -> ::darling::Result<u8> { <u8 as ::darling::FromMeta>::from_meta(m) } "
+             "macro_rules! mk { ($n:ident, $p:path) => { #[derive(::darling::FromMeta)] pub struct $n { #[darling(with = $p)] pub a: u8, "
+             "#[darling(with = $p, multiple)] pub b: crate::ustd::vec::Vec<u8> } } } mk!(R__, conv);" % META),
+            ("mr-callables", "FromMeta",
+             "fn dflt() -> u8 { 7 } fn twice(x: u8) -> u8 { x.wrapping_mul(2) } fn chk(x: u8) -> ::darling::Result<u8> { ::darling::export::Ok(x) } "
+             "macro_rules! mk { ($n:ident, $d:path, $m:path, $a:path) => { #[derive(::darling::FromMeta)] pub struct $n { #[darling(default = $d)] pub a: u8, "
+             "#[darling(map = $m)] pub b: u8, #[darling(and_then = $a)] pub c: u8 } } } mk!(R__, dflt, twice, chk);"),
+            ("mr-field-names", "FromMeta",
+             "macro_rules! mk { ($n:ident, $($f:ident : $t:ty),*) => { #[derive(::darling::FromMeta)] pub struct $n { $(pub $f: $t),* } } } mk!(R__, items: u8, errors: bool, inner: i64);"),
+            ("mr-enum", "FromMeta",
+             "macro_rules! mk { ($n:ident, $t:ident, $($v:ident),*) => { #[derive(::darling::FromMeta)] pub enum $n { $($v),*, Holds($t), Body { a: $t } } } } mk!(R__, u8, Alpha, Beta);"),
+            ("mr-attrs-with", "FromDeriveInput",
+             "fn fa(a: %s) -> ::darling::Result<usize> { ::darling::export::Ok(a.len()) } "
+             "macro_rules! mk { ($n:ident, $p:path, $t:ident) => { #[derive(::darling::FromDeriveInput)] #[darling(attributes(u_attr), forward_attrs)] "
+             "pub struct $n { #[darling(with = $p)] pub attrs: usize, pub a: $t } } } mk!(R__, fa, u8);" % ATTRS),
+            ("mr-field-recv", "FromField",
+             "macro_rules! mk { ($n:ident, $t:ident) => { #[derive(::darling::FromField)] #[darling(attributes(u_attr))] "
+             "pub struct $n { pub ident: %s, pub a: $t } } } mk!(R__, bool);" % (OPT % "::darling::export::syn::Ident")),
+        ]
+        for feat, trait, body in decls:
+            self.add(trait, body, 0, {feat, "macro_rules"}, False)
+
     def generate(self, n):
         rng = self.rng
         plan = []
@@ -304,6 +336,8 @@ class Gen:
             plan.append("struct" if r < 0.4 else "enum" if r < 0.6 else rng.choice(["FromDeriveInput", "FromField", "FromVariant", "FromTypeParam", "FromAttributes"]))
         # the first receivers are plain (they become nested types of later ones)
         for i, kind in enumerate(plan):
+            if i == 6:
+                self.gen_macro_rules()
             shadow = 0 if i < 6 else rng.randrange(len(SHADOWS))
             if kind == "struct" or i < 6:
                 self.gen_struct_meta(shadow)
